@@ -49,7 +49,17 @@ func main() {
 	strict := flag.Bool("strict", false, "fail on unsupported constructs")
 	var stubs stubList
 	flag.Var(&stubs, "stub", "pkgdir:FuncName=bodyfile (replace a function body)")
+	substFile := flag.String("substfile", "", "JSON list of {file, old, new, why} textual substitutions")
 	flag.Parse()
+	if *substFile != "" {
+		b, err := os.ReadFile(*substFile)
+		if err != nil {
+			fail("substfile: %v", err)
+		}
+		if err := json.Unmarshal(b, &substs); err != nil {
+			fail("substfile: %v", err)
+		}
+	}
 	for _, f := range strings.Split(*feat, ",") {
 		if f != "" {
 			features[f] = true
@@ -124,6 +134,12 @@ func main() {
 		}
 	}
 
+	for _, sb := range substs {
+		if !sb.used {
+			fail("subst for %s: file not among the instrumented packages", sb.File)
+		}
+	}
+
 	// injected in-package files
 	for _, dir := range strings.Split(*inject, ",") {
 		if dir == "" {
@@ -167,13 +183,48 @@ func funcName(fd *ast.FuncDecl) string {
 	return "(" + sb.String() + ")." + fd.Name.Name
 }
 
+// substs: textual substitutions applied to a source file before anything else
+// (-substfile). Each must match exactly once, so an upstream change of the
+// patched lines fails the build loudly instead of being masked.
+type substT struct {
+	File string `json:"file"` // path suffix, e.g. "pkg/rpc/mux.go"
+	Old  string `json:"old"`
+	New  string `json:"new"`
+	Why  string `json:"why"`
+	used bool
+}
+
+var substs []*substT
+
 func instrument(path, dir string, stubs map[string]string) ([]byte, bool) {
 	fset := token.NewFileSet()
-	f, err := parser.ParseFile(fset, path, nil, parser.ParseComments)
+	var src any
+	changed := false
+	for _, sb := range substs {
+		if !strings.HasSuffix(path, sb.File) {
+			continue
+		}
+		var text string
+		if src == nil {
+			b, err := os.ReadFile(path)
+			if err != nil {
+				fail("%v", err)
+			}
+			text = string(b)
+		} else {
+			text = src.(string)
+		}
+		if strings.Count(text, sb.Old) != 1 {
+			fail("subst for %s: the text to replace occurs %d times (want exactly 1): %q", sb.File, strings.Count(text, sb.Old), sb.Old)
+		}
+		src = strings.Replace(text, sb.Old, sb.New, 1)
+		sb.used = true
+		changed = true
+	}
+	f, err := parser.ParseFile(fset, path, src, parser.ParseComments)
 	if err != nil {
 		fail("parse %s: %v", path, err)
 	}
-	changed := false
 	needSched := false
 
 	// stubs
